@@ -543,7 +543,12 @@ impl Source for Mem {
                 *lock(&self.0.sender) = Some(events);
                 Ok(())
             }
-            Hot::ConfigureFails => Err("vh: configure_hot_reloading refused".into()),
+            Hot::ConfigureFails => {
+                // like a source that had already handed the sender to a first watcher when a
+                // second one failed to start: the sender is kept, the configuration is refused
+                *lock(&self.0.sender) = Some(events);
+                Err("vh: configure_hot_reloading refused".into())
+            }
             Hot::No => Err("vh: not hot".into()),
         }
     }
